@@ -157,6 +157,9 @@ func (eng *Engine) verifyFunc(fn *ssa.Function, props []string) (fc *FnCtx, err 
 				}
 			}
 		}
+		if spec != nil && pass == 1 {
+			fr.checkLineHintAnchors()
+		}
 		if spec != nil {
 			for i, h := range spec.Hints {
 				if e := fr.hintErr[i]; e != nil && !fr.hintOK[i] {
@@ -180,8 +183,14 @@ func (fc *FnCtx) preamble() string {
 	for _, k := range keys {
 		fmt.Fprintf(&b, "(declare-const %s %s)\n", compInit(k), fc.comps[k])
 	}
+	// all declarations first (an axiom of one uninterpreted function may mention another one, or a string constant)
 	for _, u := range fc.ufList {
 		fmt.Fprintf(&b, "(declare-fun %s %s)\n", u, fc.ufs[u])
+	}
+	for _, d := range fc.tc.extraDecls {
+		b.WriteString(d + "\n")
+	}
+	for _, u := range fc.ufList {
 		if ax := fc.ufAxioms[u]; ax != "" {
 			b.WriteString(ax + "\n")
 		}
@@ -189,9 +198,6 @@ func (fc *FnCtx) preamble() string {
 			// T-KV: ids of byte strings are >= 1 (0 is "no entry")
 			fmt.Fprintf(&b, "(assert (forall ((b (Array Int Int)) (o Int) (n Int)) (! (>= (%s b o n) 1) :pattern ((%s b o n)))))\n", u, u)
 		}
-	}
-	for _, d := range fc.tc.extraDecls {
-		b.WriteString(d + "\n")
 	}
 	if d := fc.tc.strDistinct(); d != "" {
 		b.WriteString(d + "\n")
